@@ -90,7 +90,7 @@ func Value(h *rt.H, c *Cfg) *Node {
 	return n
 }
 
-var specialStrings = []string{"\u2028", "a\u2029b", "<&>", "\x7f", "\u00e9", "\u20ac", "\U0001F600", "\\u0041", "a\"b\\", "\t\n", "\xc0\x80", "\xff"}
+var specialStrings = []string{"\u2028", "a\u2029b", "<&>", "\x7f", "\u00e9", "\u20ac", "\U0001F600", "\\u0041", "a\"b\\", "\t\n", "\x1f\x00", "\xc0\x80", "\xff"}
 
 func (c *Cfg) str(what string) []byte {
 	if c.Special {
